@@ -269,16 +269,23 @@ Proof. exact mid_unchecked_refuted. Qed.
 Theorem C07_mid_bump_in_range : forall mid x, 0 <= mid <= 65535 -> val (mid_bump mid) = Ok x -> 0 <= x <= 65535.
 Proof. exact mid_bump_in_range. Qed.
 
-(* DTLS handshake fragment reassembly (process_handshake_payload): over ANY history of fragments, in any order and with
-   any declared total_length / offsets, nothing panics and the bytes placed in the reassembly buffer and in re-encoded
-   complete messages are at most 2 x (fragment bytes received) + 12 per fragment (+ what was buffered before): the
-   peer-declared 24-bit total_length does not enter the bound.  A variant that sizes the buffer from the declared
-   length is refuted by one 1-byte fragment. *)
-Theorem C07_reassembly_total : forall fs st, val (reasm_fold st fs) <> Panic /\ val (reasm_fold st fs) <> OutOfFuel.
+(* DTLS handshake fragment reassembly (process_handshake_payload, offset-aware since 03019cb): over ANY history of
+   fragments, in any order and with any declared total_length / offsets, nothing panics; the bytes placed in the
+   reassembly buffer and in re-encoded complete messages are at most 2 x (fragment bytes received) + 12 per fragment
+   (+ what was buffered before); and what is buffered is at most the total_length of the message in progress.  The
+   peer-declared 24-bit total_length bounds the buffer from above, it is never a size that gets allocated.  A variant
+   that sizes the buffer from the declared length is refuted by one 1-byte fragment. *)
+Theorem C07_reassembly_total : forall fs st, reasm_wf st -> val (reasm_fold st fs) <> Panic /\ val (reasm_fold st fs) <> OutOfFuel.
 Proof. exact reasm_fold_total. Qed.
-Theorem C07_reassembly_alloc : forall fs st,
+Theorem C07_reassembly_alloc : forall fs st, reasm_wf st ->
   allocd (reasm_fold st fs) <= 2 * frags_bytes fs + 12 * len fs + len (r_buf st).
 Proof. exact reasm_fold_alloc_bound. Qed.
+Theorem C07_reassembly_buffer_bound : forall fs st st', reasm_wf st ->
+  val (reasm_fold st fs) = Ok st' ->
+  len (r_buf st') <= r_cap st' /\ len (r_buf st') <= 2 * frags_bytes fs + 12 * len fs + len (r_buf st).
+Proof. exact reasm_fold_buffer_bound. Qed.
+Theorem C07_reassembly_init_wf : reasm_wf reasm_init.
+Proof. exact reasm_init_wf. Qed.
 Theorem C07_reassembly_reserving_refuted :
   exists f, len (f_body f) = 1 /\ allocd (reasm_step_reserving reasm_init f) > 16000000.
 Proof. exact reasm_reserving_refuted. Qed.
